@@ -70,7 +70,7 @@ def runs(tier, seed):
         n2 = _count_prefixes(_alphabet(2, 2), PREFIX)
         return [ex,
                 Run("txrequest_ex", cases=n2, params={"peers": 2, "txs": 2, "len": 6, "prefix": PREFIX}, timeout=14400, name="exhaustive_2x2_len6"),
-                Run("txrequest_rand", cases=100000, params={"len": 200}, timeout=14400, name="random")]
+                Run("txrequest_rand", cases=50000, params={"len": 200}, timeout=14400, name="random")]
     return [ex, Run("txrequest_rand", cases=3000, params={"len": 200}, timeout=7200, name="random")]
 
 
